@@ -96,3 +96,6 @@ Example ex_l2_out : wf_abs ex_l2 = true /\
   exists out, quantise ex_l2 [10] = Ok out /\ wf_abs out = true /\
               map (fun m => (m_chan m, m_time m)) out = [(0, 0); (0, 10); (3, 10); (3, 30)].
 Proof. split; [vm_compute; reflexivity|]. eexists. split; [vm_compute; reflexivity|]. vm_compute. split; reflexivity. Qed.
+
+Example ex_l_sorted : sorted_time ex_l = true /\ pos_steps [4; 6] = true /\ [4; 6] <> [].
+Proof. vm_compute. repeat split. discriminate. Qed.
